@@ -270,7 +270,11 @@ def oracle(run: runner.Run, oc: Outcome) -> None:
             for c in run.calls:
                 if c.op == op.opid and c.inc == op.incarnation and c.hid == hid and c.outcome == 'ok':
                     by_uid[c.uid] = by_uid.get(c.uid, 0) + 1
-                    if _stale(run, actor, c) and any(a <= c.t0 <= b for a, b in must):
+                    # (the step may have begun -- and begun to wait for the echo that cannot come -- while paused, and
+                    # get to its handlers later, e.g. once the operator is already asked to stop)
+                    t_step = max([e[1] for e in trace if e[2] == 'proc+' and e[3] == actor and e[5] == c.uid
+                                  and e[1] <= c.t0], default=c.t0)
+                    if _stale(run, actor, c) and any(a <= c.t0 <= b or a <= t_step <= b for a, b in must):
                         stale_in_pause[c.uid] = True
             for uid, n in by_uid.items():
                 edits = sum(1 for t in run.transitions if t.uid == uid and not common.is_operator_actor(run, t.actor)
